@@ -553,6 +553,7 @@ func (w *World) sync(i, src int, h uint64) {
 	}
 	n.Inbox = append(n.Inbox, InEvent{Kind: "sync", Block: c.Block, Proof: c.Proof})
 	pre := w.Mon.pre(n)
+	spi := w.Mon.spiSnap(n)
 	w.guard(n, func() {
 		n.VN.Gc()
 		if n.VN.MainUpdateState(c.Block, c.Proof) {
@@ -563,6 +564,9 @@ func (w *World) sync(i, src int, h uint64) {
 		}
 	})
 	w.Mon.onSync(n, c, pre)
+	if c.H < pre.H {
+		w.Mon.staleSyncChangedNothing(n, c, pre, spi)
+	}
 }
 
 // CorrectLive lists the indices of correct, non-crashed nodes.
